@@ -74,13 +74,17 @@ func (f *Mapcar) Call(s *slip.Scope, args slip.List, depth int) (result slip.Obj
 				l2, _ := args[i].(slip.List)
 				ca[i-1] = l2[n]
 			}
-			rlist[n] = caller.Call(s, ca, d2)
+			if rlist[n] = caller.Call(s, ca, d2); slip.IsExit(rlist[n]) {
+				return rlist[n]
+			}
 		}
 	} else {
 		// The most common case.
 		rlist = make(slip.List, len(list))
 		for i, v := range list {
-			rlist[i] = caller.Call(s, slip.List{v}, d2)
+			if rlist[i] = caller.Call(s, slip.List{v}, d2); slip.IsExit(rlist[i]) {
+				return rlist[i]
+			}
 		}
 	}
 	return rlist
